@@ -154,14 +154,95 @@ class SymSeq:
 
 
 class MapList:
-    """mutable python list of symbolic length, lists-as-maps (E6).  Immutable value object: mutation creates a new
-    MapList that the executor stores back into the variable (aliasing of lists is an obligation handled by vc)."""
+    """mutable python list (or a set used as an accumulator) of symbolic length, lists-as-maps (E6).  An immutable value:
+    every mutation yields a new MapList that the executor stores back into the variable."""
 
     def __init__(self, length, getter, elem_kind="val", label="lst"):
         self.length, self.getter, self.elem_kind, self.label = length, getter, elem_kind, label
 
     def __repr__(self):
         return f"<MapList {self.label} len={self.length}>"
+
+    # -- functional updates ---------------------------------------------------------------------------
+    def set(self, eng, path, idx, v):
+        from .symex import merge_values
+        i = zterm(idx)
+        g = self.getter
+        return MapList(self.length, lambda k, g=g, i=i, v=v: merge_values(zterm(k) == i, v, g(k)), self.elem_kind, self.label)
+
+    def pop(self, eng, path, idx=None):
+        from .symex import merge_values
+        g = self.getter
+        n = self.length
+        j = zterm(idx) if idx is not None else n - 1
+        popped = g(j)
+        new = MapList(z3.simplify(n - 1), lambda k, g=g, j=j: merge_values(zterm(k) < j, g(k), g(zterm(k) + 1)), self.elem_kind, self.label)
+        return popped, new
+
+    def append(self, eng, path, v):
+        from .symex import merge_values
+        g = self.getter
+        n = self.length
+        return MapList(z3.simplify(n + 1), lambda k, g=g, n=n, v=v: merge_values(zterm(k) == n, v, g(k)), self.elem_kind, self.label)
+
+    def concat(self, eng, path, items):
+        out = self
+        for x in items:
+            out = out.append(eng, path, x)
+        return out
+
+    def fresh(self, eng, name):
+        """havoc: an arbitrary list of the same element kind"""
+        n = eng.fresh(name + "_len", IntS)
+        return fresh_maplist(eng, name, self.elem_kind, n)
+
+
+def fresh_maplist(eng, name, kind, n):
+    from .symex import CharV, CharPair
+    if kind == "char":
+        f = z3.Function(f"{name}_c!{eng.fresh_n}", IntS, IntS)
+        eng.fresh_n += 1
+        return MapList(n, lambda k, f=f: CharV(f(zterm(k))), "char", name)
+    if kind == "pair":
+        lo = z3.Function(f"{name}_lo!{eng.fresh_n}", IntS, IntS)
+        hi = z3.Function(f"{name}_hi!{eng.fresh_n}", IntS, IntS)
+        eng.fresh_n += 1
+        return MapList(n, lambda k, lo=lo, hi=hi: CharPair(CharV(lo(zterm(k))), CharV(hi(zterm(k)))), "pair", name)
+    if kind == "rangestr":
+        lo = z3.Function(f"{name}_lo!{eng.fresh_n}", IntS, IntS)
+        hi = z3.Function(f"{name}_hi!{eng.fresh_n}", IntS, IntS)
+        eng.fresh_n += 1
+        return MapList(n, lambda k, lo=lo, hi=hi: range_string(CharV(lo(zterm(k))), CharV(hi(zterm(k)))), "rangestr", name)
+    if kind == "classitem":
+        # an accumulator that holds characters and range strings: tag + two codes
+        tag = z3.Function(f"{name}_tag!{eng.fresh_n}", IntS, BoolS)
+        lo = z3.Function(f"{name}_lo!{eng.fresh_n}", IntS, IntS)
+        hi = z3.Function(f"{name}_hi!{eng.fresh_n}", IntS, IntS)
+        eng.fresh_n += 1
+        raise NotImplementedError
+    raise TypeError(f"cannot create an arbitrary list of kind {kind}")
+
+
+def range_string(lo, hi):
+    """the string  lo + '-' + hi  of two characters"""
+    return SStr([Atom(z3.StrFromCode(zterm(lo.code)), "char", lo.code), "-", Atom(z3.StrFromCode(zterm(hi.code)), "char", hi.code)])
+
+
+def as_pair(v):
+    """(lo code, hi code) of a range value: a CharPair, a tuple of two characters, or a range string"""
+    from .symex import CharV, CharPair
+    if isinstance(v, CharPair):
+        a, b = v.items
+        return zterm(a.code), zterm(b.code)
+    if isinstance(v, (tuple, list)) and len(v) == 2 and all(isinstance(x, CharV) for x in v):
+        return zterm(v[0].code), zterm(v[1].code)
+    if isinstance(v, SStr) and len(v.pieces) == 3 and v.pieces[1] == "-" and all(not isinstance(p, str) and p.tag == "char" for p in (v.pieces[0], v.pieces[2])):
+        return zterm(v.pieces[0].info), zterm(v.pieces[2].info)
+    if hasattr(v, "c") and hasattr(v, "a") and hasattr(v, "b"):      # Merged
+        a1, a2 = as_pair(v.a)
+        b1, b2 = as_pair(v.b)
+        return z3.If(v.c, a1, b1), z3.If(v.c, a2, b2)
+    raise TypeError(f"not a range value: {v!r}")
 
 
 class TermList:
